@@ -1,0 +1,26 @@
+//go:build verif
+
+package render
+
+// VerifMapped returns the symbols currently mapped for rendering. Verification builds only.
+func (pg *Page) VerifMapped() map[string]string {
+	return pg.cacheMap
+}
+
+// VerifSink returns the page's sink symbol ("" if none) and the extra template suffix. Verification builds only.
+func (pg *Page) VerifSink() (string, string) {
+	if pg.sink == nil {
+		return "", pg.extra
+	}
+	return *pg.sink, pg.extra
+}
+
+// VerifState returns menu items, page count, sink flag. Verification builds only.
+func (m *Menu) VerifState() ([][2]string, uint16, bool) {
+	return m.menu, m.pageCount, m.sink
+}
+
+// VerifCursors returns the sizer's cursors and sink symbol. Verification builds only.
+func (szr *Sizer) VerifCursors() ([]uint32, string) {
+	return szr.crsrs, szr.sink
+}
